@@ -628,7 +628,7 @@ func init() {
 			"the background pruner is started only when none is running and only from Save, and the deleting functions are reachable only from the pruner (no second deleter); the global maximum height that drives the re-commit test is read and written under its mutex.",
 		NotCovered: "which versions are live — the keep-the-newest-older-than-the-interval logic of deleteNode/deleteOldNode is a function of runtime heights and not decided.",
 		Rules: []core.Rule{
-			rule("R05a", "stale version-index entries are dropped before the re-committed height is saved", 2, func(r *Run) {
+			rule("R05a", "stale version-index entries are dropped before the re-committed height is saved", 5, func(r *Run) {
 				fn := mdbT + "Save"
 				core.NotAfter{Fn: fn, Early: []string{mdb + "DelLeafCountKV"}, Late: []string{mdbN + "save", mdbD + "Commit"}, Name: "DelLeafCountKV precedes root.save and Commit", Min: 2}.Check(r)
 				// and it does run whenever the height is a re-commit (under pruning)
@@ -652,6 +652,31 @@ func init() {
 						}
 						return core.Unknown
 					}}, Sink: core.CallSink(mdbN + "save"), Need: []Fact{"stale-dropped"}, Min: 1}.Check(r)
+				// no path hands out a root (non-nil result) of a database-backed tree under pruning without having
+				// dropped the stale index entries, queued the nodes and recorded the height's root hash — an
+				// "unchanged tree" shortcut would leave the losing branch's index entries behind
+				prune := func(c *core.Ctx, e ast.Expr) core.Tri {
+					if core.Mentions(mdb+"TreeConfig.EnableMavlPrune")(c, e) {
+						if _, isSel := ast.Unparen(e).(*ast.SelectorExpr); isSel {
+							return core.True
+						}
+					}
+					if callTo(mdbT+"isRemoveLeafCountKey")(c, e) {
+						return core.True
+					}
+					for _, fld := range []string{"config", "ndb", "root"} {
+						if op, ok := core.CmpAtom(c, e, core.IsObj(mdb+"Tree."+fld), isNilLit); ok {
+							return map[bool]core.Tri{true: core.True, false: core.False}[op == token.NEQ]
+						}
+					}
+					return core.Unknown
+				}
+				core.Dominated{Fn: fn, Spec: &core.FlowSpec{Assume: prune, Calls: []core.CallGuard{
+					called("stale-dropped", mdb+"DelLeafCountKV"), called("nodes-queued", mdbN+"save"), called("root-hash-recorded", mdbN+"saveRootHash")}},
+					Sink: core.SinkPred{Label: "return of a root hash", Match: func(fl *core.Flow, n *core.GNode) bool {
+						rs, ok := n.Ast.(*ast.ReturnStmt)
+						return ok && len(rs.Results) == 1 && !isNilLit(fl.C, rs.Results[0])
+					}}, Need: []Fact{"stale-dropped", "nodes-queued", "root-hash-recorded"}, Min: 1}.Check(r)
 			}),
 			rule("R05b", "one pruner at a time, started only from Save; deleters reachable only from the pruner", 6, func(r *Run) {
 				notRunning := core.CondGuard{Fact: "no-pruner-running", Match: func(c *core.Ctx, atom ast.Expr) (bool, bool) {
